@@ -26,6 +26,7 @@
 #include <unistd.h>
 #include <unordered_set>
 #include <vector>
+#include "arena_flag.h"
 
 namespace vf
 {
@@ -96,6 +97,7 @@ namespace vf
   // Announces the next case; returns false if it must be skipped.
   inline bool begin_case(const std::string &text)
   {
+    NoArena na;
     State &s = st();
     ++s.case_no;
     if (!s.replay_text.empty())
@@ -123,14 +125,23 @@ namespace vf
     if (st().marker)
       st().marker->active = 0;
   }
-  inline void count(const std::string &name, uint64_t n = 1) { st().sink.counters[name] += n; }
-  inline void distinct(const std::string &name, uint64_t h) { st().sink.distinct[name].insert(h); }
+  inline void count(const std::string &name, uint64_t n = 1)
+  {
+    NoArena na;
+    st().sink.counters[name] += n;
+  }
+  inline void distinct(const std::string &name, uint64_t h)
+  {
+    NoArena na;
+    st().sink.distinct[name].insert(h);
+  }
   inline std::string esc(const std::string &s);
   inline void write_all(int fd, const std::string &s);
   // In a child a finding is written through at once, so that it survives a later crash of the
   // same unit (only complete unit blocks are kept for counters).
   inline void finding(const std::string &key, const std::string &c, const std::string &msg)
   {
+    NoArena na;
     if (st().in_child && st().out_fd >= 0)
     {
       static std::set<std::string> written; // per child process
@@ -149,6 +160,7 @@ namespace vf
   }
   inline void sample(const std::string &s)
   {
+    NoArena na;
     if (st().sink.samples.size() < st().max_samples)
       st().sink.samples.push_back(s);
   }
